@@ -5,7 +5,7 @@
     is written in Model/Match.v from docs/configuration.md ("Matching rules to checks").
     [wf_labels e] = label maps have unique keys (a YAML mapping; duplicate keys are rejected by the strict parser). *)
 From Coq Require Import List String Ascii ZArith Bool Lia.
-From PintV Require Import Common.Bytes Gen.Tables Model.Match Proofs.C09_match.
+From PintV Require Import Common.Bytes Gen.Tables Model.Match Proofs.C09_match Proofs.C09_conds.
 Import ListNotations.
 Open Scope string_scope.
 Open Scope list_scope.
@@ -185,3 +185,150 @@ Proof.
   - split; intros x H; inversion H; subst; simpl; repeat constructor; simpl; tauto.
   - vm_compute. repeat split.
 Qed.
+
+(* ---------------------------------------------------------------------------------------------- *)
+(** * Each condition on its own (same strength as the label theorems): a block that sets only ONE condition is
+    satisfied exactly when the documented meaning of that condition holds — for every command, entry and library. *)
+
+(** command = "ci" | "lint" | "watch": satisfied iff pint runs that command, whatever the entry *)
+Theorem C09_command_condition : forall full_match parse_dur cmd c e,
+  match_is_match full_match parse_dur cmd (only_command c) e = true <-> cmd = c.
+Proof. intros fm pd cmd c e. rewrite command_alone. apply String.eqb_eq. Qed.
+Print Assumptions C09_command_condition.
+
+(** path / name: the WHOLE path (rule name) is in the language of the pattern; name looks at the alert name of an
+    alerting rule and at the record name of a recording rule *)
+Theorem C09_path_name_conditions : forall full_match parse_dur cmd p e, p <> "" ->
+  match_is_match full_match parse_dur cmd (only_path p) e = full_match p (me_path e) /\
+  (me_kind e <> Neither -> match_is_match full_match parse_dur cmd (only_name p) e = full_match p (me_name e)).
+Proof. intros fm pd cmd p e Hp. split; [apply path_alone; exact Hp|intro Hk; apply name_alone; assumption]. Qed.
+Print Assumptions C09_path_name_conditions.
+
+(** kind = "alerting" selects exactly the alerting rules, "recording" exactly the recording rules *)
+Theorem C09_kind_condition : forall full_match parse_dur cmd e,
+  (match_is_match full_match parse_dur cmd (only_kind "alerting") e = true <-> me_kind e <> Recording) /\
+  (match_is_match full_match parse_dur cmd (only_kind "recording") e = true <-> me_kind e <> Alerting).
+Proof.
+  intros fm pd cmd e. rewrite !kind_alone by discriminate.
+  destruct (me_kind e); cbn; split; split; intro H; try reflexivity; try discriminate; try congruence.
+Qed.
+Print Assumptions C09_kind_condition.
+
+(** state = [...]: the documented words mean the ChangeType constants, "any" means all of them *)
+Theorem C09_state_condition : forall full_match parse_dur cmd st e, st <> [] ->
+  match_is_match full_match parse_dur cmd (only_state st) e = true <->
+  exists s, In s st /\ (s = "any" \/ doc_state_name s = Some (me_state e)).
+Proof.
+  intros fm pd cmd st e Hs. rewrite state_alone by exact Hs. unfold doc_state. rewrite existsb_exists.
+  split; intros [s [Hin H]]; exists s; (split; [exact Hin|]).
+  - apply orb_true_iff in H. destruct H as [H|H]; [left; apply String.eqb_eq; exact H|right].
+    destruct (doc_state_name s) as [n|]; [|discriminate]. apply String.eqb_eq in H. subst n. reflexivity.
+  - apply orb_true_iff. destruct H as [H|H]; [left; apply String.eqb_eq; exact H|right].
+    rewrite H. apply String.eqb_refl.
+Qed.
+Print Assumptions C09_state_condition.
+
+(** annotation "K" { value = "V" }: only ALERTING rules that have an annotations map, and some annotation whose key
+    matches K and whose value matches V (the same pair); recording rules and alerts without annotations never match *)
+Theorem C09_annotation_condition : forall full_match parse_dur cmd k v e,
+  match_is_match full_match parse_dur cmd (only_annotation k v) e = true <->
+  me_kind e = Alerting /\ exists items, me_annotations e = Some items /\
+    exists ak av, In (ak, av) items /\ full_match k ak = true /\ full_match v av = true.
+Proof.
+  intros fm pd cmd k v e. rewrite annotation_alone.
+  destruct (me_kind e); try (split; [discriminate|intros [H _]; discriminate]).
+  destruct (me_annotations e) as [items|].
+  - rewrite existsb_exists. split.
+    + intros [[ak av] [Hin H]]. apply andb_true_iff in H. split; [reflexivity|]. exists items. split; [reflexivity|].
+      exists ak, av. tauto.
+    + intros [_ [items' [E [ak [av [Hin [H1 H2]]]]]]]. inversion E; subst items'. exists (ak, av). split; [exact Hin|].
+      cbn. rewrite H1, H2. reflexivity.
+  - split; [discriminate|]. intros [_ [items [E _]]]. discriminate.
+Qed.
+Print Assumptions C09_annotation_condition.
+
+(** label "K" { value = "V" }: some EFFECTIVE label — group labels the rule does not set itself plus the rule's own
+    labels — whose key matches K and whose value matches V; EVERY label whose key matches is considered, not the first *)
+Theorem C09_label_condition : forall full_match parse_dur cmd k v e, wf_labels e ->
+  match_is_match full_match parse_dur cmd (only_label k v) e = true <->
+  exists lk lv, In (lk, lv) (doc_labels e) /\ full_match k lk = true /\ full_match v lv = true.
+Proof.
+  intros fm pd cmd k v e W. rewrite (label_alone fm pd cmd k v e W), existsb_exists. split.
+  - intros [[lk lv] [Hin H]]. apply andb_true_iff in H. exists lk, lv. tauto.
+  - intros [lk [lv [Hin [H1 H2]]]]. exists (lk, lv). split; [exact Hin|]. cbn. rewrite H1, H2. reflexivity.
+Qed.
+Print Assumptions C09_label_condition.
+
+(** for = "OP DUR" / keep_firing_for = "OP DUR": only alerting rules that have the field; with a condition that parses
+    (always the case for [for], which is validated when the configuration is loaded) and a rule value that is a
+    duration, the rule's duration compared with DUR by OP over Z nanoseconds. *)
+Theorem C09_duration_conditions : forall full_match parse_dur cmd x e op bound, x <> "" ->
+  parse_duration_match parse_dur x = Some (op, bound) ->
+  (match_is_match full_match parse_dur cmd (only_for x) e = true <->
+     me_kind e = Alerting /\ exists v, me_for e = Some v /\
+       (parse_dur v = None \/ exists d, parse_dur v = Some d /\ doc_cmp op d bound = true)) /\
+  (match_is_match full_match parse_dur cmd (only_keep x) e = true <->
+     me_kind e = Alerting /\ exists v, me_keep e = Some v /\
+       (parse_dur v = None \/ exists d, parse_dur v = Some d /\ doc_cmp op d bound = true)).
+Proof.
+  intros fm pd cmd x e op bound Hx Hp.
+  rewrite (for_alone fm pd cmd x e Hx), (keep_alone fm pd cmd x e Hx). unfold doc_duration.
+  rewrite (validated_condition_is_used_as_parsed pd x (op, bound) Hp). cbn [fst snd].
+  assert (G : forall field : option string,
+     (match me_kind e, field with
+      | Alerting, Some v => match pd v with None => true | Some d => doc_cmp op d bound end
+      | _, _ => false end) = true <->
+     me_kind e = Alerting /\ exists v, field = Some v /\ (pd v = None \/ exists d, pd v = Some d /\ doc_cmp op d bound = true)).
+  { intro field. destruct (me_kind e); try (split; [discriminate|intros [H _]; discriminate]).
+    destruct field as [v|]; [|split; [discriminate|intros [_ [v [E _]]]; discriminate]].
+    split.
+    - intro H. split; [reflexivity|]. exists v. split; [reflexivity|].
+      destruct (pd v) as [d|]; [right; exists d; split; [reflexivity|exact H]|left; reflexivity].
+    - intros [_ [v' [E H]]]. inversion E; subst v'. destruct H as [H|[d [H1 H2]]]; rewrite ?H, ?H1; [reflexivity|exact H2]. }
+  split; apply G.
+Qed.
+Print Assumptions C09_duration_conditions.
+
+(** The parse-error clauses of the duration conditions, stated on their own:
+    (a) a rule whose for / keep_firing_for value is NOT a duration satisfies every such condition (Match.IsMatch only
+        compares when parseDuration succeeds) — while a rule without the field, or a recording rule, never does;
+    (b) a condition that passes load-time validation is used exactly as parsed (dropping the error at the use site loses
+        nothing): this covers every [for] condition;
+    (c) a condition that does not parse — possible for keep_firing_for only, Match.validate forgets it — is read with
+        duration 0, and with operator "=" when the operator itself is unknown. *)
+Theorem C09_duration_parse_error_quirk : forall parse_dur x,
+  (forall v, parse_dur v = None -> duration_cond parse_dur x Alerting (Some v) = true) /\
+  (forall k, duration_cond parse_dur x k None = false) /\
+  (forall f, duration_cond parse_dur x Recording f = false) /\
+  (forall dm, parse_duration_match parse_dur x = Some dm -> duration_match_dropping_error parse_dur x = dm) /\
+  (parse_duration_match parse_dur x = None ->
+     snd (duration_match_dropping_error parse_dur x) = 0%Z /\
+     match split_space x with
+     | Some (o, _) => match parse_op o with
+                      | Some op => fst (duration_match_dropping_error parse_dur x) = op
+                      | None => fst (duration_match_dropping_error parse_dur x) = OpEqual
+                      end
+     | None => fst (duration_match_dropping_error parse_dur x) = OpEqual
+     end).
+Proof.
+  intros pd x. split; [intros v H; exact (unparsable_rule_value_passes pd x v H)|].
+  split; [intro k; exact (missing_field_fails pd x k)|].
+  split; [intro f; exact (recording_rule_fails pd x f)|].
+  split; [intros dm H; exact (validated_condition_is_used_as_parsed pd x dm H)|].
+  exact (unparsable_condition_reads_as_zero pd x).
+Qed.
+Print Assumptions C09_duration_parse_error_quirk.
+
+(** Non-vacuity of the per-condition theorems on the example entry (alerting "Foo", for: 5m, team:x + severity:page). *)
+Example C09_conditions_nonvacuous :
+  match_is_match String.eqb ex_dur "ci" (only_command "ci") (ex_entry "Foo") = true /\
+  match_is_match String.eqb ex_dur "lint" (only_command "ci") (ex_entry "Foo") = false /\
+  match_is_match String.eqb ex_dur "lint" (only_label "team" "x") (ex_entry "Foo") = true /\
+  match_is_match String.eqb ex_dur "lint" (only_label "severity" "x") (ex_entry "Foo") = false /\
+  match_is_match String.eqb ex_dur "lint" (only_annotation "summary" "s") (ex_entry "Foo") = true /\
+  match_is_match String.eqb ex_dur "lint" (only_for "= 5m") (ex_entry "Foo") = true /\
+  match_is_match String.eqb ex_dur "lint" (only_for "> 5m") (ex_entry "Foo") = false /\
+  match_is_match String.eqb ex_dur "lint" (only_keep "5m") (ex_entry "Foo") = false /\
+  parse_duration_match ex_dur "> 5m" = Some (OpMore, 300000000000%Z) /\
+  parse_duration_match ex_dur "~ 5m" = None /\ duration_match_dropping_error ex_dur "~ 5m" = (OpEqual, 0%Z).
+Proof. vm_compute. repeat split. Qed.
